@@ -150,17 +150,28 @@ def _real_worker(case):
     from mxlpy.linear_label_map import LinearLabelMapper
 
     lv = c05.lv_of(case)
-    maps = {k: list(v) for k, v in case["maps"]}
-    base = c05.build_base(case)
     out = {"evals": []}
-    c0 = pd.Series({x: 1.0 for x, _ in case["base"]["vars"]})
-    f0 = pd.Series({r: 1.0 for r, _ in case["base"]["rxns"]})
+
+    def ones(c):
+        return (pd.Series({x: 1.0 for x, _ in c["base"]["vars"]}), pd.Series({r: 1.0 for r, _ in c["base"]["rxns"]}))
+
+    # ONE linear mapper and ONE isotopomer mapper serve every build of this case (and of its history)
     try:
-        lin = LinearLabelMapper(base, label_variables=lv, label_maps=maps).build_model(
-            concs=c0, fluxes=f0, initial_labels=c05.init_arg(case))
+        lmap, base = c05.mapper_session(
+            LinearLabelMapper, case,
+            lambda mp, c: mp.build_model(concs=ones(c)[0], fluxes=ones(c)[1], initial_labels=c05.init_arg(c)))
+        imap, ibase = c05.mapper_session(LabelMapper, case, lambda mp, c: mp.build_model())
+    except Exception as e:  # noqa: BLE001
+        out["build"] = {"err": ["base:" + type(e).__name__]}
+        return out
+    c0, f0 = ones(case)
+    try:
+        lin = lmap.build_model(concs=c0, fluxes=f0, initial_labels=c05.init_arg(case))
     except Exception as e:  # noqa: BLE001
         out["build"] = {"err": [type(e).__name__]}
+        out["attrs"] = c05.attrs_of(lmap)
         return out
+    out["attrs"] = c05.attrs_of(lmap)
     out["build"] = {"ok": True}
     out["rxns"] = sorted(
         [k, list(r.args), sorted([c, {"_neg_one_div": "neg", "_one_div": "pos"}.get(d.fn.__name__, d.fn.__name__), d.args[0]]
@@ -184,19 +195,20 @@ def _real_worker(case):
                 E = {k: v / tot[k.split("__")[0]] for k, v in marginals_of(case, state).items()}
             res["E"] = [[k, num(fexpr.to_float(v))] for k, v in sorted(E.items())]
             ext = fexpr.to_float(Fraction(ev.get("ext", "1")))
-            lin2 = LinearLabelMapper(base, label_variables=lv, label_maps=maps).build_model(
+            lin2 = lmap.build_model(
                 concs=pd.Series(totf), fluxes=pd.Series({r: float(fl[r]) for r in fl.index}), external_label=ext)
             r = lin2.get_right_hand_side({k: fexpr.to_float(v) for k, v in E.items()}, 0.0)
             res["lin"] = {"ok": sorted([k, num(v)] for k, v in r.items())}
             if ev.get("uniform") is None:
                 if iso is None:
-                    iso = LabelMapper(base, label_variables=lv, label_maps=maps).build_model()
+                    iso = imap.build_model()
                 ir = iso.get_right_hand_side({k: fexpr.to_float(v) for k, v in state.items()}, 0.0)
                 dm = marginals_of(case, {k: Fraction(float(v)) for k, v in ir.items()})
                 res["iso"] = {"ok": sorted([k, num(fexpr.to_float(v / tot[k.split("__")[0]]))] for k, v in dm.items())}
         except Exception as e:  # noqa: BLE001
             res["lin"] = {"err": [type(e).__name__, str(e)[:80]]}
         out["evals"].append(res)
+    out["attrs_end"] = c05.attrs_of(lmap)
     return out
 
 
@@ -234,6 +246,8 @@ def evaluate(cases, use_driver=True):
 
 
 def shape_of(case):
+    if case.get("history"):
+        return f"reused{len(case['history'])} " + shape_of({k: v for k, v in case.items() if k != "history"})
     if "err" in spec_build(case):
         return "rejected:" + spec_build(case)["err"][0]
     allperm, noninv = case_class(case)
@@ -247,6 +261,10 @@ def judge_case(ctx, case, R, M):
     if ctx.judge(sub, R["build"], spec_build(case), Mb, what="build outcome") != "ok" or "err" in R["build"]:
         return
     allperm, noninv = case_class(case)
+    for key in ("attrs", "attrs_end"):
+        if key in R:
+            ctx.judge(sub, R[key], {"lv": case["lv"], "maps": case["maps"]}, None,
+                      what="mapper attributes after build_model")
     ctx.judge(sub, R["vars"], spec_vars(case), None if M is None else M["vars"], what="initial label placement")
     if not allperm:
         # a map that is not a permutation of the padded positions has no linear counterpart: model agreement only
@@ -490,6 +508,41 @@ def random_case(rng):
     return with_evals(rng, case, n_states=2 if ok else 0, try_steady=ok)
 
 
+def reuse_cases(rng, tier):
+    """mapper reuse: the chain networks of the exhaustive stratum with every permutation map of N<=3
+    positions, on a mapper that was built before with another map and edited in place; plus random
+    sessions (other maps / label counts / map order / base model, in place or by assignment)"""
+    out = []
+    shapes = [([1], [1]), ([2], [2]), ([3], [3]), ([1, 1], [2]), ([2], [1, 1]), ([1, 2], [3]), ([2, 1], [1, 2])]
+    for ss, ps in shapes:
+        N = max(sum(ss), sum(ps))
+        subs = [f"S{i}" for i in range(len(ss))]
+        prods = [f"P{i}" for i in range(len(ps))]
+        labels = {**dict(zip(subs, ss)), **dict(zip(prods, ps))}
+        rxns = [(f"in{i}", [], [c]) for i, c in enumerate(subs)] + [("v", subs, prods)] + \
+               [(f"out{i}", [c], []) for i, c in enumerate(prods)]
+        perms = list(it.permutations(range(N)))
+
+        def mk(m):
+            maps = [(f"in{i}", list(range(labels[c]))) for i, c in enumerate(subs)] + [("v", m)] + \
+                   [(f"out{i}", list(range(labels[c]))) for i, c in enumerate(prods)]
+            return make_case(rxns, labels, maps)
+
+        for m in perms:
+            other = perms[(perms.index(m) + 1) % len(perms)] if len(perms) > 1 else tuple(m) + (0,)
+            out.append(dict(with_evals(rng, mk(m), n_states=1), history=[mk(other)], edit="inplace"))
+    return out
+
+
+def random_reuse_case(rng):
+    case = random_case(rng)
+    hist, cur = [], case
+    for _ in range(rng.choice([1, 1, 2])):
+        cur = c05.perturbed(rng, cur)
+        hist.insert(0, cur)
+    return dict(case, history=hist, edit=rng.choice(["inplace", "inplace", "assign"]))
+
+
 # --------------------------------------------------------------------------- entry points
 
 
@@ -501,7 +554,9 @@ def setup(ctx):
         "thorough) plus short / long / out-of-range maps; random: six network templates (chain, split+merge, cycle, "
         "bimolecular merge, A -> 2B, reversible pair) x label counts 1-3 x random permutations / arbitrary maps / "
         "broken inputs; each at random integer isotopomer states with power-of-two pools, and, where a positive flux "
-        "mode exists, at an exact base steady state (two isotopomer distributions + a uniform-enrichment state). "
+        "mode exists, at an exact base steady state (two isotopomer distributions + a uniform-enrichment state). All builds "
+        "of a case run on ONE LinearLabelMapper / ONE LabelMapper object; mapper reuse stratum: the same inputs on mapper "
+        "objects that were built before with other maps / label counts / order / base model and then edited. "
         "distinct = distinct (lv, maps, init, base, evals)"
     )
     ctx.assumptions += [
@@ -534,6 +589,11 @@ def run(ctx):
         n = max(n, 6000)
         ctx.notes.append("proof/correspondence broken: widened random search for a failing input")
     run_cases(ctx, [random_case(rng) for _ in range(n)])
+    reuse = reuse_cases(rng, ctx.tier) + [random_reuse_case(rng) for _ in range(ctx.n(800, 20000))]
+    ctx.extra_cov["mapper_reuse_stratum"] = len(reuse)
+    run_cases(ctx, reuse)
+    if ctx.violations:
+        c05.shrink(ctx, judge_case, evaluate)
 
 
 def replay(ctx, rp):
